@@ -77,6 +77,71 @@ func flagCases(c *rt.Ctx) []FCase {
 					out = append(out, FCase{Dialect: d, Base: m.Name, Shape: "hand:" + pn})
 				}
 			}
+			// (2c) per-column multi-attribute modifications: hand-built columns through the real TableDiff
+			// (every subset of ≤ 3 of {generation expression dropped, type, null, default, comment}) …
+			for _, cn := range colmodNames() {
+				out = append(out, FCase{Dialect: d, Base: models[0].Name, Shape: "hand:" + cn})
+			}
+			// … and from the dmodel catalogue: two (and three) column-level edits of different families on the
+			// SAME column, a bounded number per family combination (enumeration order, not randomised)
+			per := map[string]int{}
+			limit := c.Pick(2, 12)
+			family := func(kind string) string {
+				f := strings.Split(kind, ".")
+				if len(f) >= 2 {
+					return f[1]
+				}
+				return kind
+			}
+			colEdit := func(e dmodel.Edit) (tbl, col string, ok bool) {
+				f := strings.Split(e.ID, "|")
+				if !strings.HasPrefix(e.Kind, "column.") || e.Kind == "column.add" || e.Kind == "column.drop" || len(f) < 3 {
+					return "", "", false
+				}
+				return f[1], f[2], true
+			}
+			for _, m := range models {
+				for _, e1 := range dmodel.Catalogue(m) {
+					t1, c1, ok := colEdit(e1)
+					if !ok {
+						continue
+					}
+					var m1 *dmodel.Model
+					for _, e2 := range func() []dmodel.Edit {
+						// only look further while some combination with this family may still be wanted
+						m1 = e1.Apply(m)
+						return dmodel.Catalogue(m1)
+					}() {
+						t2, c2, ok := colEdit(e2)
+						if !ok || t2 != t1 || c2 != c1 || family(e2.Kind) == family(e1.Kind) {
+							continue
+						}
+						key := family(e1.Kind) + "+" + family(e2.Kind)
+						if strings.Contains(e1.Kind, "generated") || strings.Contains(e2.Kind, "generated") {
+							key = e1.Kind + "+" + e2.Kind
+						}
+						if per[key] >= limit {
+							continue
+						}
+						per[key]++
+						shape := "modify"
+						if per[key]%2 == 0 {
+							shape = "rev"
+						}
+						out = append(out, FCase{Dialect: d, Base: m.Name, Edits: []string{e1.ID, e2.ID}, Shape: shape})
+						// one triple per pair key
+						if per[key] == 1 {
+							for _, e3 := range dmodel.Catalogue(e2.Apply(m1)) {
+								t3, c3, ok := colEdit(e3)
+								if ok && t3 == t1 && c3 == c1 && family(e3.Kind) != family(e1.Kind) && family(e3.Kind) != family(e2.Kind) {
+									out = append(out, FCase{Dialect: d, Base: m.Name, Edits: []string{e1.ID, e2.ID, e3.ID}, Shape: "modify"})
+									break
+								}
+							}
+						}
+					}
+				}
+			}
 			nPairs := 0
 			for _, m := range models {
 				if nPairs >= c.Pick(60, 1000) {
